@@ -19,6 +19,9 @@ def json_eq(a: Any, b: Any) -> bool:
     return json.dumps(a, sort_keys=True) == json.dumps(b, sort_keys=True)
 
 
+_types_seen: dict = {}
+
+
 def ser_per_case(u, c, tp, val, kw, out, violate):
     """Serialization side: precomputed method, check_type, no_copy, PassThroughOptions."""
     from apischema import PassThroughOptions, serialization_default, serialization_method, serialize
@@ -43,6 +46,23 @@ def ser_per_case(u, c, tp, val, kw, out, violate):
             violate("opt-no_copy", f"no_copy={nc} fall_back_on_any={fb} gives {json.dumps({k: v for k, v in r.items() if k != 'raw'})[:300]}")
         elif not nc and (in_ids & record.container_ids(r["raw"])):
             violate("opt-shares", f"no_copy=False (fall_back_on_any={fb}) but the result shares a mutable container with the input")
+    # PassThroughOptions.types is part of the options a compiled method depends on: a call passing some classes
+    # through, then the plain call on a fresh cache -- the second must not inherit the first one's methods
+    tkey = json.dumps(c["type"], sort_keys=True)
+    _types_seen[tkey] = _types_seen.get(tkey, 0) + 1
+    if _types_seen[tkey] <= 2:
+        import dataclasses as _dc
+
+        import apischema.cache
+
+        all_dc = tuple(v for v in u.ctx.ns.values() if isinstance(v, type) and _dc.is_dataclass(v))
+        if all_dc:
+            apischema.cache.reset()
+            engine_ser.run_serialize(serialize, tp, val, pass_through=PassThroughOptions(types=all_dc), **kw)
+            r = engine_ser.run_serialize(serialize, tp, val, **kw)
+            if r["kind"] != "ok" or not engine_ser.ser_equal(c["expect"], r["d"]):
+                violate("opt-pass_through", "after a call with pass_through=PassThroughOptions(types=<the dataclasses>), the plain call gives "
+                        f"{json.dumps({k: v for k, v in r.items() if k != 'raw'})[:300]}")
     # pass-through: equal once serialization_default completes what was left untouched
     dflt_kw = {k: v for k, v in kw.items() if k in ("aliaser", "additional_properties", "exclude_defaults", "exclude_none")}
     default = serialization_default(**dflt_kw)
